@@ -10,6 +10,7 @@ CONSTANTS
   Kinds = {"cpuset", "limit"}
   Algos = {"leveled", "suppress"}
   CacheMode = "subsets"
+  ExternalSteps = FALSE
 INVARIANT V
 INVARIANT TNAtEnd
 INVARIANT CacheAgrees
